@@ -68,3 +68,12 @@ package bytesconv
 //@ trusted-pure multipart.Form
 //@ trusted-pure bytebufferpool.Pool
 //@ trusted-pure sync.Pool
+
+//@ extern fmt.Errorf(format, a) r
+//@   allocates
+//@   ensures r != nil
+//@ extern fmt.Sprintf(format, a) r
+//@   allocates
+//@ extern errors.New(text) r
+//@   allocates
+//@   ensures r != nil
